@@ -2,13 +2,16 @@
    One case of the [read] relation = one file content materialised as .vcf.gz+tbi
    and as .pgen/.pvar/.psam (written with pysam / pgenlib directly), one query,
    and for each format what haptools returned for: read() (everything),
-   read(region, samples, variants, max_variants), and list(__iter__(...)).
-   [agree]: the model reproduces all six observations.
+   read(region, samples, variants, max_variants), and __iter__(...) - the iterator as three callers see
+   it (each record converted at once; all records materialised first; a record converted after the
+   iterator moved on: [fo_iter], [fo_held]) - and two read() calls on ONE object ([fo_again]).
+   [agree]: the model reproduces every observation.
    [holds]: the property, computed from the observations alone: the restricted
    read equals the full read filtered in file order; the iterator yields the
    records of the bulk read; an empty match is an empty result plus a warning and
    never an exception; both formats give the same samples, variants, allele
-   indices and phase of heterozygous calls. *)
+   indices and phase of heterozygous calls; a caller that holds on to records or to the arrays of an
+   earlier read sees the same ([holds_kept]). *)
 From HV Require Import Prelude BpText C07_Model C07_Check C08_Model C08_Region.
 
 Definition vrec_eqb (x y : vrec) : bool :=
@@ -16,11 +19,29 @@ Definition vrec_eqb (x y : vrec) : bool :=
 
 Definition rows_eqb := list_eqb (list_eqb call_eqb).
 
+(* what the harness sees of one __iter__ call: the samples and the records, each converted to plain data *)
+Definition iter_obs := res (list Z * list vrec).
+
+(* Two read() calls on ONE object with different restrictions, the caller holding on to what the first
+   call left (the data array, the variants, the samples) while the second runs. *)
+Record reread := mkrr {
+  rr_full_first : bool;      (* read() first and read(restricted) second; false = the other way round *)
+  rr_first : res geno;       (* the object dumped after the first call *)
+  rr_first_kept : res geno;  (* the arrays the first call left, held by the caller, dumped again AFTER the
+                                second call (the error of the first call again if it raised) *)
+  rr_second : res geno       (* the object dumped after the second call *)
+}.
+
 Record fobs := mkfo {
   fo_full : res geno;                       (* read() *)
   fo_read : res geno;                       (* read(region, samples, variants, max_variants) *)
   fo_warned : bool;                         (* the restricted read logged >= 1 warning *)
-  fo_iter : res (list Z * list vrec)        (* samples and records of __iter__(region, samples, variants) *)
+  fo_iter : iter_obs;                       (* samples and records of __iter__(region, samples, variants), every
+                                               record converted to plain data before the next one is asked for *)
+  fo_held : list iter_obs;                  (* the same call observed by callers that HOLD records: all records
+                                               materialised first (list(it)) and converted afterwards; each record
+                                               converted only after the iterator was advanced past it *)
+  fo_again : option reread                  (* None: not observed for this case *)
 }.
 
 Record rcase := mkrc {
@@ -45,6 +66,34 @@ Record rcase := mkrc {
 Definition q_all : query := mkq None None None None.
 
 Definition iter_eqb := pair_eqb (list_eqb Z.eqb) (list_eqb vrec_eqb).
+
+(* two observations of the same call show the same: the same result, or an exception both times *)
+Definition res_same {A} (eqb : A -> A -> bool) (x y : res A) : bool :=
+  match x, y with
+  | Ok a, Ok b => eqb a b
+  | Err _, Err _ => true
+  | _, _ => false
+  end.
+
+(* the observations of one format under the other consumption style [it] *)
+Definition with_iter (fo : fobs) (it : iter_obs) : fobs :=
+  mkfo (fo_full fo) (fo_read fo) (fo_warned fo) it [] None.
+
+(* a caller that holds records sees what the caller that converts each record at once sees *)
+Definition held_same (fo : fobs) : bool := forallb (res_same iter_eqb (fo_iter fo)) (fo_held fo).
+
+(* the second read on a used object returns what a read on a fresh object returns, and what the first read
+   left in the caller's hands is untouched by it *)
+Definition holds_again (fo : fobs) : bool :=
+  match fo_again fo with
+  | None => true
+  | Some rr =>
+      let a := if rr_full_first rr then fo_full fo else fo_read fo in
+      let b := if rr_full_first rr then fo_read fo else fo_full fo in
+      res_same geno_eqb (rr_first rr) a
+      && res_same geno_eqb (rr_first_kept rr) (rr_first rr)
+      && res_same geno_eqb (rr_second rr) b
+  end.
 
 Definition q_noregion (q : query) : query := mkq None (q_samples q) (q_ids q) (q_max q).
 
@@ -75,12 +124,29 @@ Definition model_read (k : rcase) :=
   ((rmap load_names (vcf_read_x fx c q_all), rmap load_names vr, rmap load_names_iter vi),
    (rmap load_names (pgen_read_x pload_std fx (rc_chunk k) c q_all), rmap load_names pr, rmap load_names_iter pi)).
 
+(* The model's reads are functions of the content and the query and its iterator is a list: whatever the
+   caller holds on to, and whatever the object was used for before, the observation is the same one
+   (C08_Proofs4: the three consumption styles of a list coincide). *)
+Definition agree_again (full rd : res geno) (fo : fobs) : bool :=
+  match fo_again fo with
+  | None => true
+  | Some rr =>
+      let a := if rr_full_first rr then full else rd in
+      let b := if rr_full_first rr then rd else full in
+      res_eqb geno_eqb a (rr_first rr) && res_eqb geno_eqb a (rr_first_kept rr)
+      && res_eqb geno_eqb b (rr_second rr)
+  end.
+
+Definition agree_fmt (m : res geno * res geno * iter_obs) (fo : fobs) : bool :=
+  let '(full, rd, it) := m in
+  res_eqb geno_eqb full (fo_full fo) && res_eqb geno_eqb rd (fo_read fo)
+  && res_eqb iter_eqb it (fo_iter fo)
+  && forallb (res_eqb iter_eqb it) (fo_held fo)
+  && agree_again full rd fo.
+
 Definition agree_read (k : rcase) : bool :=
-  let '((vf, vr, vi), (pf, pr, pi)) := model_read k in
-  res_eqb geno_eqb vf (fo_full (rc_vcf k)) && res_eqb geno_eqb vr (fo_read (rc_vcf k))
-  && res_eqb iter_eqb vi (fo_iter (rc_vcf k))
-  && res_eqb geno_eqb pf (fo_full (rc_pgen k)) && res_eqb geno_eqb pr (fo_read (rc_pgen k))
-  && res_eqb iter_eqb pi (fo_iter (rc_pgen k)).
+  let '(mv, mp) := model_read k in
+  agree_fmt mv (rc_vcf k) && agree_fmt mp (rc_pgen k).
 
 (* --- the property on one format ---
    [must]: region predicate every reading of "in the region" agrees on (position
@@ -204,11 +270,15 @@ Definition holds_vcf (k : rcase) : bool :=
    compared with the model only *)
 Definition read_dom (k : rcase) : bool := nodupb (map v_id (g_variants (rc_c k))) && names_dom k.
 
+(* what a caller that holds on to records / arrays sees of one format *)
+Definition holds_kept (fo : fobs) : bool := held_same fo && holds_again fo.
+
 Definition holds_read (k : rcase) : bool :=
   negb (read_dom k)
-  || (holds_vcf k && holds_cross_full k
+  || (holds_vcf k && holds_kept (rc_vcf k) && holds_cross_full k
       && (pgen_region_misread k
-          || (holds_fmt (rc_strict_samples k) (load_q (rc_q k)) (rc_pgen k) && holds_cross_restricted k))).
+          || (holds_fmt (rc_strict_samples k) (load_q (rc_q k)) (rc_pgen k) && holds_kept (rc_pgen k)
+              && holds_cross_restricted k))).
 
 Definition check_read (k : rcase) : bool * bool := (agree_read k, holds_read k).
 
